@@ -34,9 +34,9 @@ import (
 
 func cases(tier string) int {
 	if tier == "thorough" {
-		return 24000
+		return 120000
 	}
-	return 1080
+	return 5400
 }
 
 func TestCheck(t *testing.T) {
@@ -394,7 +394,9 @@ func (s *scenario) checkConservation() {
 				}
 			}
 			s.c.Add("conservation_checks", 1)
-			if got >= 0 && got != want {
+			// in a chain the report sender also sees what members above it inject
+			// (retransmissions, FEC): only "no update lost" can be demanded there
+			if got >= 0 && (got < want || (single && got != want)) {
 				s.c.Violation("lost-update/report-sender/packet-count",
 					"interceptors %s: %d packets were written on SSRC 1000 by concurrent writers, the last sender report counts %d", s.desc, want, got)
 			}
@@ -404,7 +406,13 @@ func (s *scenario) checkConservation() {
 			}
 			st := b.StatsGetter.Get(1000)
 			s.c.Add("conservation_checks", 1)
-			if st != nil && int64(st.OutboundRTPStreamStats.PacketsSent) != s.writes[0].Load() {
+			if got := int64(0); st != nil {
+				got = int64(st.OutboundRTPStreamStats.PacketsSent)
+				if got >= s.writes[0].Load() && !(single && got != s.writes[0].Load()) {
+					continue
+				}
+			}
+			if st != nil {
 				s.c.Violation("lost-update/stats/packets-sent",
 					"interceptors %s: %d packets were written on SSRC 1000 by concurrent writers, stats count %d", s.desc, s.writes[0].Load(), st.OutboundRTPStreamStats.PacketsSent)
 			}
